@@ -57,6 +57,10 @@ func ddlVariant(st sq.State, variant string) ([]string, bool) {
 		// the default "one" written in another way
 		return sq.DDLWith(st, strings.TrimPrefix(variant, "dflt:")), false
 	}
+	if variant == "customtype" {
+		// a table whose column types are names the engine does not know (kept verbatim, in upper case)
+		return append(sq.DDL(st), "CREATE TABLE zc (id integer NOT NULL, amount MONEY, g GUID)"), false
+	}
 	if variant == "lowerwhere" {
 		// keywords as a person might type them: the engine keeps the text verbatim
 		var out []string
@@ -280,7 +284,17 @@ func exportOne(id int, st sq.State, variant, dir string) (o exportObs) {
 		return
 	}
 	o.Orig = normInline(orig, inl)
-	if !equalState(normInline(dropIdx(orig, "zx"), inl), normInline(st, inl)) {
+	cmp := dropIdx(orig, "zx")
+	if variant == "customtype" {
+		c2 := sq.State{}
+		for k, v := range cmp {
+			if k != "zc" {
+				c2[k] = v
+			}
+		}
+		cmp = c2
+	}
+	if !equalState(normInline(cmp, inl), normInline(st, inl)) {
 		o.Skipped = "projection of the start state differs from the model state (harness inconsistency)"
 		return
 	}
@@ -445,6 +459,9 @@ func exportMode(pairsFile, out string, workers int) {
 			}
 			if partial && len(jobs)%3 == 1 {
 				jobs = append(jobs, job{st, "lowerwhere"})
+			}
+			if len(jobs)%11 == 0 {
+				jobs = append(jobs, job{st, "customtype"})
 			}
 		}
 	}
